@@ -82,6 +82,13 @@ pub fn c15_format_h() {
     format_is_canonical(n);
 }
 
+/// every i64 nanosecond count at once: decided by the MIR engine (mirsym/c15_format.py), not by
+/// Kani (tier "off"); this body is what the driver replays natively for a mirsym counterexample
+pub fn c15_format_any() {
+    let n: i64 = any();
+    format_is_canonical(n);
+}
+
 /// An arbitrary chrono duration (chrono's whole range, beyond 2^63 ns included) together with
 /// its exact value in "floor form": value = secs * 10^9 + nanos with 0 <= nanos < 10^9.  The
 /// oracles below never multiply: sums, differences and the order are computed on (secs, nanos).
@@ -142,6 +149,17 @@ pub fn c15_sub() {
     judge_arith(&r, s, n);
     forget(r);
 }
+/// panic-freedom only (no functional oracle, so no hard equivalence for the solver): whatever the
+/// implementation computes for duration +/- duration, it returns a value or an error
+pub fn c15_add_sub_no_panic() {
+    let ((a, _, _), (b, _, _)) = (any_duration(), any_duration());
+    let r = Value::Duration(a) + Value::Duration(b);
+    cover!(r.is_ok(), "representable sum reachable");
+    forget(r);
+    let r = Value::Duration(a) - Value::Duration(b);
+    cover!(r.is_err(), "unrepresentable difference reachable");
+    forget(r);
+}
 pub fn c15_compare() {
     let ((a, sa, na), (b, sb, nb)) = (any_duration(), any_duration());
     let (x, y) = (Value::Duration(a), Value::Duration(b));
@@ -165,7 +183,9 @@ crate::harnesses! {
     #[kani::unwind(34)] #[kani::stub(alloc::fmt::format, crate::stubs::format)] #[kani::stub(std::hash::RandomState::new, crate::stubs::random_state_new)] #[kani::stub(alloc::string::String::from_utf8_lossy, crate::stubs::from_utf8_lossy)] c15_format_s: "off", "functions::string on Value::Duration -> duration::format_duration, format_float, format_int", "1 s <= |n| < 60 s, both signs; oracle: independent port of Go's Duration.String, byte equality";
     #[kani::unwind(34)] #[kani::stub(alloc::fmt::format, crate::stubs::format)] #[kani::stub(std::hash::RandomState::new, crate::stubs::random_state_new)] #[kani::stub(alloc::string::String::from_utf8_lossy, crate::stubs::from_utf8_lossy)] c15_format_m: "off", "functions::string on Value::Duration -> duration::format_duration, format_float, format_int", "1 min <= |n| < 1 h, both signs; oracle: independent port of Go's Duration.String, byte equality";
     #[kani::unwind(34)] #[kani::stub(alloc::fmt::format, crate::stubs::format)] #[kani::stub(std::hash::RandomState::new, crate::stubs::random_state_new)] #[kani::stub(alloc::string::String::from_utf8_lossy, crate::stubs::from_utf8_lossy)] c15_format_h: "off", "functions::string on Value::Duration -> duration::format_duration, format_float, format_int", "|n| >= 1 h up to i64::MIN / i64::MAX ns; oracle: independent port of Go's Duration.String, byte equality";
+    #[kani::unwind(34)] c15_format_any: "off", "functions::string on Value::Duration -> duration::format_duration, format_float, format_int", "all i64 ns (native replay body for the MIR engine)";
     #[kani::unwind(2)] c15_add: "quick", "<Value as Add>::add (Duration,Duration)", "two arbitrary chrono durations (whole chrono range: secs i64, nanos < 10^9, Duration::new accepts); oracle i128 ns";
     #[kani::unwind(2)] c15_sub: "quick", "<Value as Sub>::sub (Duration,Duration)", "two arbitrary chrono durations; oracle i128 ns";
+    #[kani::unwind(2)] c15_add_sub_no_panic: "quick", "<Value as Add>::add, <Value as Sub>::sub (Duration,Duration)", "two arbitrary chrono durations; Kani's automatic panic/overflow checks only";
     #[kani::unwind(2)] c15_compare: "quick", "<Value as PartialEq>::eq/ne, <Value as PartialOrd>::partial_cmp (Duration,Duration)", "two arbitrary chrono durations; oracle i128 ns";
 }
